@@ -135,4 +135,42 @@ non-empty range (an empty range has no left-end bin the property fixes) -/
 def offsetOk (bins : BinTable) (c s e : Nat) (o : Int) : Bool :=
   if s < e then decide (0 ≤ o) && ((overlapping bins c s e).head? == some o.toNat) else true
 
+/-! ### the same verdicts in ONE pass over the table (for tables with 10^5 bins)
+
+`overlapping` / `containing` above read `bins[k]?` for every `k` — quadratic on a `List`.  The forms
+below walk the table once; `C04.overlappingF_eq`, `containingF_eq`, `selOkF_eq`, `runOkF_eq`,
+`pxSelOkF_eq`, `offsetOkF_eq` prove them EQUAL to the definitions above for every input, so the
+driver may evaluate either. -/
+
+/-- one walk along the table: position counter `i`, hits appended to `acc` -/
+def idsWhereGo (p : Bin → Bool) : List Bin → Nat → Array Nat → Array Nat
+  | [], _, acc => acc
+  | b :: t, i, acc => idsWhereGo p t (i + 1) (if p b then acc.push i else acc)
+
+/-- positions of the rows of a table satisfying `p`, ascending -/
+def idsWhere (p : Bin → Bool) (bins : BinTable) : List Nat := (idsWhereGo p bins 0 #[]).toList
+
+def overlappingF (bins : BinTable) (c s e : Nat) : List Nat :=
+  idsWhere (fun b => b.chrom == c && decide (b.start < e) && decide (s < b.stop)) bins
+
+def containingF (bins : BinTable) (c p : Nat) : List Nat :=
+  idsWhere (fun b => b.chrom == c && decide (b.start ≤ p) && decide (p ≤ b.stop)) bins
+
+def selOkF (bins : BinTable) (c s e : Nat) (ids : List Nat) : Bool :=
+  if s < e then ids == overlappingF bins c s e
+  else match ids with
+    | [] => true
+    | [k] => (containingF bins c s).contains k
+    | _ => false
+
+def runOkF (bins : BinTable) (c s e : Nat) (lo : Int) (hi : Nat) : Bool :=
+  decide (0 ≤ lo) && selOkF bins c s e (runIds lo.toNat hi)
+
+def pxSelOkF (bins : BinTable) (ps : Pixels) (c s e : Nat) (rows : Pixels) : Bool :=
+  if s < e then rows == pxOfBins ps (overlappingF bins c s e)
+  else rows == [] || (containingF bins c s).any fun k => rows == pxOfBins ps [k]
+
+def offsetOkF (bins : BinTable) (c s e : Nat) (o : Int) : Bool :=
+  if s < e then decide (0 ≤ o) && ((overlappingF bins c s e).head? == some o.toNat) else true
+
 end Cooler
